@@ -120,7 +120,7 @@ func (nd *KVNode) registerHandler() {
 	nd.router.RegisterRead("mget", wrapReadCommandKK(nd.mgetCommand))
 	nd.router.RegisterWrite("set", nd.setCommand)
 	nd.router.RegisterWrite("append", wrapWriteCommandKV(nd, checkAndRewriteIntRsp))
-	nd.router.RegisterWrite("setrange", wrapWriteCommandKAnySubkey(nd, checkAndRewriteIntRsp, 2))
+	nd.router.RegisterWrite("setrange", nd.setrangeCommand)
 	nd.router.RegisterWrite("getset", wrapWriteCommandKV(nd, checkAndRewriteBulkRsp))
 	nd.router.RegisterWrite("setbit", nd.setbitCommand)
 	nd.router.RegisterWrite("setbitv2", nd.setbitCommand)
